@@ -140,7 +140,6 @@ class SchemaValidator:
                 or _is_valid_name(type_.name)
             ):
                 self.add_error('Invalid type name "%s"' % type_.name)
-                continue
 
             if isinstance(type_, ObjectType):
                 self.validate_fields(type_)
